@@ -12,6 +12,7 @@ CONSTANTS
   ClassExprs <- ClassExprsFull
   Repaired = {}
   Variant = "asCoded"
+  NonceCtxs = {"c1", "c2"}
   MaxNonces = 2
   MaxSteps = 40
   EmitEdges = FALSE
